@@ -38,6 +38,16 @@ Theorem C03_agree_after_use :
 Proof. exact tables_agree_after_use. Qed.
 Print Assumptions C03_agree_after_use.
 
+(* The three statements hold of what an interpreter sees that has only imported the public package
+   (`from fusion_engine_client.messages import *`, `import fusion_engine_client.parsers`) — no submodule imported by hand:
+   every payload class is registered by the package's own imports. *)
+Theorem C03_agree_public_import :
+  enums_agree_spec enum_pairing exc_cpp_only exc_py_only exc_renamed cpp_enums py_enums_public /\
+  classification_agrees_spec cpp_classification py_classification_public py_command_messages_public py_response_messages_public /\
+  registry_bijective_spec cpp_messages py_classes_public py_registry_public.
+Proof. exact tables_agree_public_import. Qed.
+Print Assumptions C03_agree_public_import.
+
 (* The comparison is not vacuous: the tables are non-empty and the comparison functions flag synthetic errors. *)
 Example C03_nonvacuous :
   cpp_enums <> [] /\ cpp_classification <> [] /\ cpp_messages <> [] /\ py_enums <> [] /\ py_classes <> [] /\
